@@ -20,7 +20,8 @@ VKs(n) == { [op |-> "swap", i |-> p[1], j |-> p[2]] : p \in { q \in Idx(n) \X Id
           \cup { [op |-> "replace", i |-> i, j |-> 0] : i \in Idx(n) }
           \cup { [op |-> "truncate", i |-> 0, j |-> 0], [op |-> "extend", i |-> 0, j |-> 0] }
 
-Mk(n, ss, vs, sig, vmsg, vk) == [n |-> n, ss |-> ss, vs |-> vs, sig |-> sig, vmsg |-> vmsg, vkeys |-> vk]
+Mk(n, ss, vs, sig, vmsg, vk) == [n |-> n, ss |-> ss, vs |-> vs, sig |-> sig, vmsg |-> vmsg, vkeys |-> vk, ri |-> 0, rc |-> 0]
+MkRogueC(n, ss, ri, rc) == [Mk(n, ss, ss, "RogueC", "same", VSame) EXCEPT !.ri = ri, !.rc = rc]
 
 Full(n) == [k \in 1 .. n |-> k - 1]
 
@@ -28,8 +29,11 @@ CasesFor(n, ss) ==
     \* every verification signer list
     { Mk(n, ss, vs, "Good", "same", VSame) : vs \in SeqsUpTo(0 .. n, MinI(n, MaxLen)) \cup Sorted(n) \cup {Append(ss, n)} }
     \* every signature kind (Rogue needs the whole vector of at least two keys as signer list)
-    \cup { Mk(n, ss, ss, k, "same", VSame) : k \in SigKinds \ {"Good", "Rogue", "RogueW"} }
+    \cup { Mk(n, ss, ss, k, "same", VSame) : k \in SigKinds \ {"Good", "Rogue", "RogueW", "RogueC"} }
     \cup (IF n >= 2 /\ ss = Full(n) THEN { Mk(n, ss, ss, k, "same", VSame) : k \in {"Rogue", "RogueW"} } ELSE {})
+    \* coefficient-folded key cancellation: every selected key as the rogue one (the others are the
+    \* victims: one or several), folding the coefficient of every selected index
+    \cup (IF Len(ss) >= 2 THEN { MkRogueC(n, ss, ri, rc) : ri \in SeqSet(ss), rc \in SeqSet(ss) } ELSE {})
     \* one change of message or key vector, also combined with a changed signer list of the same length
     \cup { Mk(n, ss, ss, "Good", "other", VSame) }
     \cup { Mk(n, ss, ss, "Good", "same", vk) : vk \in VKs(n) }
